@@ -38,8 +38,8 @@ def run(tier, seed):
     m = common.tlc("engine", "BlockStore", cfg=mcfg, workers=12, timeout=2400, xmx="16g")
     if not m.ok:
         raise common.ToolError("BlockStore.tla properties fail on the specification:\n" + m.out[-1500:])
-    plan = [(300, 40, "mixed"), (300, 12, "mixed"), (700, 400, "bulk")] if tier == "quick" else \
-        [(300, 40, "mixed"), (300, 12, "mixed"), (700, 400, "bulk"), (1000, 500, "bulk"), (500, 6, "mixed"), (1000, 300, "mixed")]
+    plan = [(300, 40, "mixed"), (300, 12, "mixed"), (700, 400, "bulk"), (400, 300, "burst0")] if tier == "quick" else \
+        [(300, 40, "mixed"), (300, 12, "mixed"), (700, 400, "bulk"), (1000, 500, "bulk"), (500, 6, "mixed"), (1000, 300, "mixed"), (400, 300, "burst0")]
     nseeds = 3 if tier == "quick" else 15
     traces, events, samples, viol = 0, 0, [], 0
     ep_states, ep_traces, ep_events, ep_admitted, ep_max_known, ep_samples = 0, 0, 0, 0, 0, []
